@@ -117,6 +117,24 @@ static void spaceIntWeightedMean(vf::Runner& R) {
     if (!(std::fabs(got - want) <= 8 * DBL_EPSILON * std::max(1.0, std::fabs(want)))) c.fail("mean(v,w)|value|integer-elements", in + " = " + vf::num(got) + ", definition " + vf::num(want));
   }, 5.0);
 }
+// correlation is invariant under a common positive scaling: every pair of vectors over {-2,-1,0,1,3}^n, n = 2..3, scaled by 1e90 and by
+// 1e-90 (covariance and both standard deviations stay far inside the double range; only a product of the two variances would not)
+static void spaceCorScale(vf::Runner& R) {
+  static const double AV[5] = {-2, -1, 0, 1, 3};
+  uint64_t tot = 0; std::vector<uint64_t> off; for (int n = 2; n <= 3; ++n) { off.push_back(tot); uint64_t k = 1; for (int i = 0; i < 2 * n; ++i) k *= 5; tot += k * 2; }
+  R.space("cor:common-scaling{1e90,1e-90}:values{-2,-1,0,1,3}^n:n2..3", tot, [=](uint64_t idx, vf::Case& c) {
+    int n = idx >= off[1] ? 3 : 2; uint64_t k = idx - off[(size_t)n - 2]; double sc = (k % 2) ? 1e-90 : 1e90; k /= 2;
+    std::vector<double> a((size_t)n), b((size_t)n);
+    for (int i = 0; i < n; ++i) { a[(size_t)i] = AV[k % 5]; k /= 5; } for (int i = 0; i < n; ++i) { b[(size_t)i] = AV[k % 5]; k /= 5; }
+    c.site("cor(v,v) [scaled]");
+    double r0 = VT::cor<double, double>(a, b);
+    if (!std::isfinite(r0)) { c.tag("cor:constant-vector(not judged)"); return; }
+    c.nontrivial();
+    std::vector<double> as = a, bs = b; for (auto& x : as) x *= sc; for (auto& x : bs) x *= sc;
+    double r1 = VT::cor<double, double>(as, bs);
+    if (!(std::fabs(r1 - r0) <= 1e-12)) c.fail("cor|changes-under-common-scaling", "cor(" + vf::vstr(a) + ", " + vf::vstr(b) + ") = " + vf::num(r0) + " but " + vf::num(r1) + " when both vectors are multiplied by " + vf::num(sc));
+  }, 5.0);
+}
 // length combinations for every function with a size requirement; contents 1,2,3 (weights 1,2,3): one function per case
 static void spaceShapes(vf::Runner& R) {
   const int NF2 = 19;
@@ -363,7 +381,7 @@ int main(int argc, char** argv) {
   int L = th ? 7 : 5;
   g_allTies = th;
   spaceUnary<int>(R, L); spaceUnary<double>(R, L); spaceUnaryDoubleExtra(R, L);
-  spaceShapes(R); spaceIntWeightedMean(R);
+  spaceShapes(R); spaceIntWeightedMean(R); spaceCorScale(R);
   spacePairs<int>(R, 3); spacePairs<double>(R, 3);
   spaceWeighted(R, 3); spaceTriples(R, 3);
   spaceSeq(R);
